@@ -517,4 +517,32 @@ def rule_h(ctx: Ctx) -> None:
                 'simple-content guard returns the call of the same-named member (forwarding of the arguments: C04.c).')
 
 
-RULES = [rule_a, rule_b, rule_c, rule_d, rule_e, rule_f, rule_g, rule_h]
+def rule_i(ctx: Ctx) -> None:
+    """Typed decoding is requested per family (decimal_type, datetime_types, binary_types): whether the values of one family are
+    kept as typed objects depends on the option of that family alone."""
+    rule = 'C02.i'
+    f = ctx.idx.method('xmlschema.validators.validation.DecodeContext', '__init__')
+    ctx.analysed(f.qualname)
+    g = cfg_of(ctx, f)
+    fam = {'AbstractDateTime': 'datetime_types', 'Duration': 'datetime_types', 'AbstractBinary': 'binary_types', 'decimal.Decimal': 'decimal_type', 'Decimal': 'decimal_type'}
+    n = 0
+    for node, c in call_nodes(g, lambda c: isinstance(c.func, ast.Attribute) and c.func.attr in ('append', 'extend') and text(c.func.value) == 'keep_datatypes'):
+        names = [text(a) for a in c.args] if c.func.attr == 'append' else [text(x) for a in c.args for x in getattr(a, 'elts', [a])]
+        for nm_ in names:
+            opt = fam.get(nm_)
+            if opt is None:
+                continue
+            n += 1
+            gs = guards(ctx, f, node)
+            foreign = sorted({t for t, lab in gs for o in set(fam.values()) if o != opt and o in t})
+            own = any(opt in t for t, lab in gs)
+            ok = own and not foreign
+            ctx.ob(rule, f'DecodeContext: `{nm_}` values are kept typed exactly when `{opt}` asks for it', f.loc(c), ok,
+                   '' if ok else (f'the append also depends on `{foreign[0]}`: with both options set the values of this family come back as strings'
+                                  if foreign else f'not guarded by `{opt}`'), key=f'DecodeContext|keep|{nm_}')
+    ctx.floor(rule, 'typed-family registrations in DecodeContext.__init__', n, 4)
+    ctx.explain('C02.i: path condition of every keep_datatypes.append/extend in DecodeContext.__init__ mentions the option of its own '
+                'family and no option of another family.')
+
+
+RULES = [rule_a, rule_b, rule_c, rule_d, rule_e, rule_f, rule_g, rule_h, rule_i]
